@@ -44,7 +44,7 @@ def failure_tags(msgs):
     attrs = set()
     for m in msgs:
         head = m.split(":", 1)[0]
-        if "." in head:
+        if "." in head and " " not in head.rsplit(".", 1)[1]:
             attrs.add(head.rsplit(".", 1)[1].split("[")[0])
     if attrs:
         return ["diff-only:" + "+".join(sorted(attrs))]
